@@ -102,6 +102,9 @@ def build(desc):
         if "pandas" in r["val"]:
             gvals[r["name"]] = _new_pandas(m, r)
             continue
+        if _io_kind(r["val"]):
+            gvals[r["name"]] = _new_pandas_kind(m, r, ("model",))
+            continue
         gvals[r["name"]] = _value(m, r["val"], gvals)
         setattr(m, r["name"], gvals[r["name"]])
     for path, sp in iter_spaces(desc):
@@ -111,9 +114,29 @@ def build(desc):
             if "pandas" in r["val"]:
                 vals[r["name"]] = _new_pandas(s, r)
                 continue
+            if _io_kind(r["val"]):
+                vals[r["name"]] = _new_pandas_kind(s, r, path)
+                continue
             vals[r["name"]] = _value(m, r["val"], vals)
             s.set_ref(r["name"], vals[r["name"]], r.get("mode", "auto"))
     return m
+
+
+def _io_kind(spec):
+    if "kind" not in spec:
+        return None
+    from . import exportvals
+    k = exportvals.BY_ID[spec["kind"]]
+    return k if k.io else None
+
+
+def _new_pandas_kind(parent, r, path):
+    """a value kind that lives in a PandasData IOSpec: `new_pandas` onto a file of its own inside the model"""
+    from . import exportvals
+    k = _io_kind(r["val"])
+    data = exportvals.make(r["val"])
+    ext = "csv" if k.io == "csv" else "xlsx"
+    return parent.new_pandas(r["name"], "data/%s_%s.%s" % ("_".join(path), r["name"], ext), data, file_type=k.io)
 
 
 def _new_pandas(parent, r):
